@@ -90,7 +90,7 @@ static bool ledger_ok(const char* what, int held_before, int held_after_expected
 }
 
 /* ---------------------------------------------------------------- site x outcome x fault choice */
-static uint64_t n_matrix(void) { return (uint64_t)E_N * O_N * pv_scaled(200, 2000); }
+static uint64_t n_matrix(void) { return (uint64_t)E_N * O_N * pv_scaled(200, 20000); }
 static void run_matrix(uint64_t idx, pv_rng* rng) {
     int e = (int)(idx % E_N), o = (int)((idx / E_N) % O_N);
     if (!possible(e, o)) return;
@@ -155,7 +155,7 @@ static void run_matrix(uint64_t idx, pv_rng* rng) {
 
 /* ---------------------------------------------------------------- all 2^n fault masks over short sequences */
 #define MAXSEQ 8
-static uint64_t n_masks(void) { return pv_scaled(200, 3000); }
+static uint64_t n_masks(void) { return pv_scaled(200, 20000); }
 static void run_masks(uint64_t idx, pv_rng* rng) {
     int n = 3 + (int)(idx % (MAXSEQ - 2));
     input in[MAXSEQ]; int nin = 0;
@@ -195,7 +195,7 @@ static void run_masks(uint64_t idx, pv_rng* rng) {
 }
 
 /* ---------------------------------------------------------------- libc path: alloc/free entries NULL */
-static uint64_t n_libc(void) { return pv_scaled(3000, 60000); }
+static uint64_t n_libc(void) { return pv_scaled(3000, 600000); }
 static void run_libc(uint64_t idx, pv_rng* rng) {
     static bool switched;
     if (!switched) { polyseed_dependency t; pv_world_table(&t, 0, true, false, false); pv_api_inject(&t); switched = true; }
